@@ -690,6 +690,38 @@ def main() -> int:
             ck.nontriv(("hist", repr(h), repr(env)))
         if i != m:
             disagreements.append({"suite": "T1-histories", "env": env, "history": h, "impl": i, "model": m})
+        # S on histories, directly on the implementation's answers (no model involved): (B) an attempt to open a scope
+        # inside an open scope of the same thread - by a call or by entering the manager directly - is refused; (A) between
+        # an accepted open and the close of that scope, the thread reads its string override of DEFAULT_SCHEMA
+        outs_i = i.split("|")
+        open_, pending, active = {}, {}, {}
+        for k_op, (o, out) in enumerate(zip(h, outs_i)):
+            t = o[1]
+            bad = None
+            if o[0] == "call":
+                if open_.get(t) and out == "D":
+                    bad = "a configuration call inside an open scope of the same thread was accepted (nested scope)"
+                elif out == "D":
+                    pending[t] = dict(o[2])
+            elif o[0] == "enter":
+                if open_.get(t):
+                    if out != "RC":
+                        bad = "entering a scope inside an open scope of the same thread was not refused (nested scope)"
+                elif out == "D":
+                    open_[t] = True
+                    active[t] = pending.pop(t, {})
+            elif o[0] == "exit":
+                if out == "D":
+                    open_[t] = False
+                    active[t] = {}
+                    pending.pop(t, None)
+            elif o[0] == "read" and open_.get(t) and o[2] == "DEFAULT_SCHEMA" and isinstance(active.get(t, {}).get("DEFAULT_SCHEMA"), str):
+                if out != "Vs:" + active[t]["DEFAULT_SCHEMA"]:
+                    bad = "inside its open scope the thread does not read its override of DEFAULT_SCHEMA"
+            if bad:
+                spec_failures.append({"suite": "T1-histories-scope", "env": env, "history": h[:k_op + 1], "answers": outs_i[:k_op + 1],
+                                      "thread": t, "spec": bad})
+                break
         # S on histories: a refused operation changes nothing observable (c15_reject),
         # checked directly on the implementation
     ck.sample({"history": hists[len(hists) // 2], "impl": impl[len(hists) // 2]})
